@@ -85,6 +85,9 @@ type scen struct {
 	Callers int
 	// RegistryFails: the server has a service registry whose Deregister returns an error
 	RegistryFails bool
+	// KeepAliveField: the busy handlers set "Connection: keep-alive" on their response (as
+	// long-poll and event-stream handlers do); shutdown still has to mark it for closing
+	KeepAliveField bool
 }
 
 // readAll reads until EOF/error with a deadline and returns what arrived.
@@ -148,6 +151,7 @@ func oneScenario(w *mon.W, c *mon.Case) {
 		s.Callers = 2 + r.Intn(4)
 	}
 	s.RegistryFails = r.Chance(8)
+	s.KeepAliveField = r.Chance(3)
 	if s.RegistryFails {
 		// violations in this sub-domain are attributed separately (see known_findings.txt)
 		c.KeyTag = "failing-deregistration"
@@ -206,6 +210,9 @@ func oneScenario(w *mon.W, c *mon.Case) {
 		if atomic.LoadInt32(&shutdownBegan) == 1 {
 			atomic.AddInt32(&releasedAfterShutdown, 1)
 			ctx.Response.Header.Set("X-After-Shutdown", "1")
+		}
+		if s.KeepAliveField {
+			ctx.Response.Header.Set("Connection", "keep-alive")
 		}
 		ctx.Response.SetBody(wire.PosBody(1, 20000))
 	})
